@@ -128,7 +128,7 @@ def c12(c):
     shards = 16 if c.tier == "thorough" else 8
     files, n, out = vlib.record("C12", c.tier, c.seed, shards)
     c.details["recorder"] = out.strip().splitlines()[0][:500]
-    c.validate("Trace_Monitor", "Trace_Monitor.cfg", files, ["record", "C12"], procs=PROCS, timeout=3000, key_fn=vsign_key("C12"))
+    c.validate("Trace_Monitor", "Trace_Monitor_C12.cfg", files, ["record", "C12"], procs=PROCS, timeout=3000, key_fn=vsign_key("C12"))
     c.assumptions += ["a panic inside VirtualSign::process_message / VirtualSignBus::process_message is caught and recorded as reply kind 'Panic'; "
                       "the monitor rejects it", "harness is built with debug assertions and overflow checks on, like the repository's test profile",
                       "the 65536+5-chunk history (16-bit counter wrap) is only run in the thorough tier"]
@@ -179,7 +179,7 @@ def c14(c):
     shards = 16 if c.tier == "thorough" else 8
     files, n, out = vlib.record("C14", c.tier, c.seed, shards)
     c.details["recorder"] = out.strip().splitlines()[0][:500]
-    c.validate("Trace_Monitor", "Trace_Monitor.cfg", files, ["record", "C14"], procs=PROCS, timeout=3000, key_fn=vsign_key("C14"))
+    c.validate("Trace_Monitor", "Trace_Monitor_C14.cfg", files, ["record", "C14"], procs=PROCS, timeout=3000, key_fn=vsign_key("C14"))
     c.assumptions += ["populations of 1..4 signs with distinct addresses (random and boundary addresses), mixed flip styles",
                       "the monitor is reference-free: it compares the bus's reply and per-sign projections with what a solo clone of each sign did"]
     return c.finish("model_checking",
